@@ -212,6 +212,10 @@ func (netWorld) Gen(prop, tier string, idx int, r *Rng) *Trace {
 			}
 			ops = append(ops, Op{K: "deliver", T: cl, B: key, C: dmode, D: touch})
 		}
+		if prop == "C02" && gmode >= 3 && r.Chance(1, 2) {
+			// the genuine token once more through the same receive buffer, after its damaged copies
+			ops = append(ops, Op{K: "deliver", T: l, B: curKey[ai], C: gmode})
+		}
 		// a Byzantine attester crafts a message with its own key and sends it to the verifier that trusts that key
 		if r.Chance(1, 3) {
 			cl := newLabel()
@@ -409,6 +413,13 @@ func (netWorld) Exec(prop string, t *Trace) *Result {
 	roundTrips := 0
 	shape := ""
 
+	type rxHeldEv struct {
+		ev       *psatoken.Evidence
+		key      int
+		accepted bool
+		at       int
+	}
+	var rxHeld []*rxHeldEv
 	deliver := func(i int, cur []byte, key int, mode int, touch int, s *netSlot, sweep bool) {
 		res.Evals++
 		buf := append([]byte{}, cur...)
@@ -472,6 +483,23 @@ func (netWorld) Exec(prop string, t *Trace) *Result {
 		}
 		accepted := derr == nil && verr == nil
 		damaged := !bytes.Equal(cur, s.orig)
+		if c02 && !sweep && mode%5 >= 3 {
+			// Evidences decoded earlier from this verifier's ONE receive buffer: the buffer now holds
+			// another message; what each of them answered then, it answers now
+			for _, h := range rxHeld {
+				h := h
+				res.Evals++
+				now := safely(func() string { return okOrErr(h.ev.Verify(pubKey(h.key))) }) == "ok"
+				if now && !h.accepted {
+					res.violate("C02", "accepts-modified-token", "held-evidence", i, "an Evidence decoded (step %d) from a token it then REJECTED under key %d accepts it now, after the verifier's receive buffer was reused for another message", h.at, h.key)
+					h.accepted = true
+				}
+			}
+			res.Probes["held_rx_evidences_reverified"] += len(rxHeld)
+			if derr == nil && ev != nil && mode%5 != 1 && len(rxHeld) < 6 {
+				rxHeld = append(rxHeld, &rxHeldEv{ev: ev, key: key, accepted: verr == nil, at: i})
+			}
+		}
 		if !sweep {
 			res.logf("%d deliver key=%d mode=%d damaged=%v derr=%s verr=%s", i, key, mode%5, damaged, okOrErr(derr), okOrErr(verr))
 		}
